@@ -902,6 +902,43 @@ pub fn analyse(
             ));
         }
     }
+    if !mapping_ok && !ambiguous {
+        // no consistent pairing exists. With a single request and a single task on an association there is nothing to pair
+        // wrongly: the task IS that request's, and the disagreement is the master's (a request carried out as another kind
+        // of task, an outcome reported to the user that differs from how the task ended, or at another time)
+        let mut assoc_addrs: Vec<u16> = tasks.iter().map(|t| t.assoc).collect();
+        assoc_addrs.sort();
+        assoc_addrs.dedup();
+        for addr in assoc_addrs {
+            let us: Vec<&User> = users
+                .iter()
+                .filter(|u| u.assoc == addr && !matches!(u.kind, UserKind::LinkStatus))
+                .collect();
+            let ts: Vec<&Task> = tasks.iter().filter(|t| t.assoc == addr).collect();
+            if let ([u], [t]) = (us.as_slice(), ts.as_slice()) {
+                let is_file = matches!(u.kind, UserKind::FileRead { .. } | UserKind::Directory(_));
+                let func_differs = first_func(&u.kind).map(|f| f != t.func).unwrap_or(false);
+                let outcome_differs = match (&t.end, &u.done) {
+                    (Some((et, _, success, _)), Some((dt, _, ok, _))) if !is_file => et != dt || success != ok,
+                    _ => false,
+                };
+                if u.t <= t.start_t && (func_differs || outcome_differs) {
+                    fail(Violation::new(
+                        "C16/task-does-not-match-request",
+                        format!(
+                            "{} {}",
+                            kind_name(&u.kind),
+                            if func_differs { "function" } else { "outcome" }
+                        ),
+                        format!(
+                            "the only user request of {} ({:?}, outcome {:?}) was carried out as a task with first function {} that ended {:?}",
+                            addr, u.kind, u.done, t.func, t.end
+                        ),
+                    ));
+                }
+            }
+        }
+    }
     if !mapping_ok || ambiguous {
         // the harness could not pair tasks with user requests beyond doubt: no further verdicts
         bump(if ambiguous {
